@@ -548,7 +548,7 @@ func main() {
 	for _, f := range o.CorpusFiles() {
 		addReplay(f, "corpus")
 	}
-	ncore := o.Scale(1500, 15000)
+	ncore := o.Scale(1200, 15000)
 	for i := 0; i < ncore; i++ {
 		var c *coreCase
 		var b []string
@@ -560,7 +560,7 @@ func main() {
 		runCore(c)
 		core.Cases = append(core.Cases, c.toCase(b...))
 	}
-	napi := o.Scale(500, 4000)
+	napi := o.Scale(400, 4000)
 	for i := 0; i < napi; i++ {
 		c, b := genAPI(r)
 		if err := runAPI(c); err != nil {
